@@ -8,7 +8,7 @@ from sys import maxsize
 
 from mc.engine import hbfs, par
 from mc.engine.report import Violation
-from mc.engine.seams import Canon, reset_library, public_snapshot
+from mc.engine.seams import Canon, reset_library, public_snapshot, new_model
 
 import ECAgent.Core as Core
 from ECAgent.Collectors import Collector
@@ -88,10 +88,26 @@ def make_rec(log):
 def sweep_case(case):
     start, end, freq, reg, horizon = case['start'], case['end'], case['freq'], case['reg'], case['horizon']
     reset_library()
-    model = Core.Model(seed=1)
+    model = new_model(seed=1)
     log = []
     Rec = make_rec(log)
-    s = (Rec.Collector if case.get('kind') == 'collector' else Rec)('s', model, 0, start, end, freq)
+    pre = case.get('prelife', 0)
+    if pre:
+        # the very same system object served an earlier model for `pre` timesteps (there, too, by the window rule) and
+        # is then handed to this one: what happened there has no bearing on the schedule here
+        old = new_model(seed=9)
+        s = Rec('s', old, 0, start, end, freq)
+        old.systems.add_system(s)
+        old.execute(pre)
+        exp0 = [(t, 's') for t in range(pre) if active(t, start, end, freq)]
+        if log != exp0:
+            raise Violation(f'activations in the earlier model differ from the window predicate', expected=exp0,
+                            observed=list(log))
+        old.systems.remove_system('s')
+        s.model = model
+        del log[:]
+    else:
+        s = (Rec.Collector if case.get('kind') == 'collector' else Rec)('s', model, 0, start, end, freq)
     if end == DEFAULT and s.end != maxsize:
         raise Violation('default end is not sys.maxsize', expected=maxsize, observed=s.end)
     for t in range(horizon):
@@ -141,6 +157,10 @@ def sweep_cases(tier):
                     for kind in ('system', 'collector'):
                         yield {'leg': 'window_sweep', 'start': start, 'end': end, 'freq': freq, 'reg': reg,
                                'horizon': horizon, 'kind': kind}
+                    if reg in (0, 2, 5):
+                        for pre in (3, 5) if tier == 'quick' else (1, 3, 5, 8):
+                            yield {'leg': 'window_sweep', 'start': start, 'end': end, 'freq': freq, 'reg': reg,
+                                   'horizon': horizon, 'kind': 'system', 'prelife': pre}
 
 
 # ---------------------------------------------------------------------------------------------------------
@@ -165,7 +185,7 @@ class Multi:
 
     def fresh(self):
         w = World()
-        w.model = Core.Model(seed=1)
+        w.model = new_model(seed=1)
         w.log = []
         Rec = make_rec(w.log)
         w.objs = {k: (Rec.Falsy if k in ('w0', 'w5') else Rec)(k, w.model, prio, start, end, freq, sid)
@@ -301,6 +321,10 @@ class MultiWithTwin(Multi):
         return w
 
 
+# the cheap legs run once more under the runner's ambient configurations (python -O, other logger levels)
+AMBIENT_LEGS = True
+
+
 def run(ctx):
     cases = list(sweep_cases(ctx.tier))
     size = max(1, len(cases) // (ctx.procs * 4))
@@ -309,7 +333,7 @@ def run(ctx):
     ctx.sample(cases[0])
     ctx.sample(cases[len(cases) // 2])
     ctx.leg('window_sweep', configurations=len(cases), horizon=cases[0]['horizon'], exhaustive_product=True)
-    if ctx.violations:
+    if ctx.violations or ctx.small:
         return
     h = MultiWithTwin(6 if ctx.tier == 'quick' else 9)
     r = hbfs.explore(ctx, h, 'multi', max_depth=40, procs=ctx.procs)
